@@ -8,7 +8,7 @@
    Statements only; proofs in Proofs/FancyLossy.v and Proofs/FancyFrame.v. *)
 From Coq Require Import String.
 From N2 Require Import Model.All Model.Fancy.
-From N2 Require Import Proofs.FancyLossy Proofs.FancyFrame.
+From N2 Require Import Proofs.SchedSpec Proofs.FancyLossy Proofs.FancyFrame Proofs.FancySched.
 
 (* raw bytes: whatever a command printed, the line kept for display is well-formed UTF-8 ... *)
 Theorem C20_lossy_valid : forall s, utf8_strict (lossy s) = true.
@@ -51,3 +51,32 @@ Print Assumptions C20_protocol_total.
 Theorem C20_protocol_is_needed : f_run0 false [FOutput 1 []] = Panic 33%N /\ f_run0 false [FFinish 1 None (Some [99%N]) false 0%N []] = Panic 34%N /\ f_run0 false [FStart 1 0 None None] = Panic 32%N /\ f_run0 false [FStart 1 0 None (Some [99%N]); FOutput 1 [120%N]; FPrint 0 1] = Panic 31%N.
 Proof. exact protocol_is_needed. Qed.
 Print Assumptions C20_protocol_is_needed.
+
+(* ---- the display under the scheduler ----
+   Display items are scheduler events (the accepted trace of Work::run: EStart shows a command,
+   EFinish removes it) interleaved with the other display operations (progress updates, logged
+   lines, output lines of commands, repaints).  [others_ok]: an output line is only delivered for a
+   command that has been started and whose completion has not been received (the runner's channel
+   is FIFO per command), and repaints happen at widths >= 2. *)
+
+(* in every accepted run from a quiet state a completion is only received for a command on display
+   and only steps with a command line are ever started *)
+Theorem C20_scheduler_display_discipline : forall cf r0 tr r', quiet r0 -> accepts cf r0 tr = Some r' -> disp_ok [] tr /\ starts_ok cf tr /\ DInv r' (disp_of [] tr).
+Proof. exact scheduler_display_discipline. Qed.
+Print Assumptions C20_scheduler_display_discipline.
+
+(* hence the operations the scheduler issues respect the display's protocol ... *)
+Theorem C20_scheduler_respects_display_protocol : forall cf info clk hide outp r0 items r', quiet r0 -> accepts cf r0 (sched_part items) = Some r' -> others_ok [] items -> proto_ok [] (fop_part cf info clk hide outp items).
+Proof. exact scheduler_respects_display_protocol. Qed.
+Print Assumptions C20_scheduler_respects_display_protocol.
+
+(* ... and the display never panics during a build, for every graph, schedule and outcome; the
+   commands on display are exactly those started and not finished *)
+Theorem C20_display_never_panics_during_a_build : forall cf info clk hide outp verbose r0 items r', quiet r0 -> accepts cf r0 (sched_part items) = Some r' -> others_ok [] items -> exists frames st, f_run0 verbose (fop_part cf info clk hide outp items) = Ok (frames, st) /\ map ft_id (fs_tasks st) = map N.of_nat (disp_of [] (sched_part items)) /\ length frames = nprints (fop_part cf info clk hide outp items) /\ lasts_valid st /\ DInv r' (disp_of [] (sched_part items)).
+Proof. exact scheduler_display_never_panics. Qed.
+Print Assumptions C20_display_never_panics_during_a_build.
+
+(* the premise [quiet] holds whenever Work::run is entered on a fresh Work *)
+Theorem C20_fresh_work_is_quiet : forall cf decls s fl, graph_wf (cf_graph cf) -> wanted (cf_graph cf) (bs_new (length (g_builds (cf_graph cf))) decls) s -> quiet (run_init s fl).
+Proof. exact fresh_work_quiet. Qed.
+Print Assumptions C20_fresh_work_is_quiet.
